@@ -7,6 +7,7 @@ package c20
 import (
 	"bytes"
 	"fmt"
+	"io"
 	"sync"
 	"time"
 
@@ -258,7 +259,7 @@ func (s *rxSession) doCase(body []byte, expectPrinted bool) (class, kind, msg st
 		return "no-output", "hang", fmt.Sprintf("no record within %v after body and sentinel were sent", watchdog), nil, false
 	}
 	if a.err != nil {
-		return "stream-broken", "fail", fmt.Sprintf("output stream ended/broke: %v; partial %s; stderr: %s", a.err, show(a.data), s.stderrAfterEOF()), nil, false
+		return "stream-broken", "fail", fmt.Sprintf("output stream ended/broke: %v; partial %s; stderr: %s", a.err, show(a.data), s.stderrAfterEOF(a.err)), nil, false
 	}
 	if s.format == "raw" {
 		// raw records are cut at the sentinel: the chunk is everything printed for body
@@ -287,23 +288,31 @@ func (s *rxSession) doCase(body []byte, expectPrinted bool) (class, kind, msg st
 		return "record-missing", "fail", fmt.Sprintf("no record printed for body %s: the next record is already the sentinel sent after it", show(body)), nil, true
 	}
 	b, ok := s.next()
+	if c != "" {
+		// the record of the body is wrong; the session stays usable if the sentinel follows
+		if !ok || b.err != nil {
+			return c, "fail", m, nil, false
+		}
+		sc2, _, _ := checkRecord(s.format, s.sent, b)
+		return c, "fail", m, nil, sc2 == ""
+	}
 	if !ok {
 		return "no-sentinel", "hang", fmt.Sprintf("sentinel record did not appear within %v", watchdog), nil, false
 	}
 	if b.err != nil {
-		return "stream-broken", "fail", fmt.Sprintf("output stream ended/broke: %v; stderr: %s", b.err, s.stderrAfterEOF()), nil, false
+		return "stream-broken", "fail", fmt.Sprintf("output stream ended/broke after the record of body %s: %v; stderr: %s", show(body), b.err, s.stderrAfterEOF(b.err)), nil, false
 	}
 	sc2, sm2, _ := checkRecord(s.format, s.sent, b)
-	if c != "" {
-		return c, "fail", m, nil, sc2 == ""
-	}
 	if sc2 != "" {
 		return "record-split-or-merged", "fail", fmt.Sprintf("after the record of body %s the next record is not the sentinel: %s", show(body), sm2), nil, false
 	}
 	return "", "", "", nts, true
 }
 
-func (s *rxSession) stderrAfterEOF() string {
+func (s *rxSession) stderrAfterEOF(err error) string {
+	if err != io.EOF && err != io.ErrUnexpectedEOF {
+		return "(macat still running)"
+	}
 	if s.p.waitExit(2 * time.Second) {
 		return s.p.stderrText()
 	}
